@@ -5,7 +5,7 @@ ID = "C38"
 LEVEL = "exploration"
 RULE = ("for every integer type, every binary operator and every operand pair (8-bit: all 65536 pairs; wider: V13 x V13) a "
         "const-const-binop group is folded by the real ConstantFolder; every int->int cast x all 256 (8-bit) / all 65536 (16-bit, "
-        "thorough) / V13 source values; chain patterns (y+c1)+c2 and (y-c1)-c2 for all 8-bit (c1,c2) (wider: V13 pairs); the Const "
+        "thorough) / V13 source values; chain patterns (y op1 c1) op2 c2 for op1, op2 in {+,-} (all four combinations) for all 8-bit (c1,c2) (wider: V13 pairs); the Const "
         "left by the pass must equal the reference run-time result whenever that is defined and must lie in its type's range; "
         "distinct non-trivial = distinct (type, operator, folded value)")
 ASSUMPTIONS = ["reference: vf/sem/irinterp.py Interp.binop/cast (wrap-around, truncating / and %, arithmetic >> for signed), validated against gcc by C01",
@@ -48,7 +48,8 @@ def fold_batch(p, kind, ty, op, pairs):
             body += [["const", ty, a], ["const", ty, b], ["bin", op, "%%%d" % n, "%%%d" % (n + 1), ty], ["store", "%%%d" % (n + 2), "@g", True]]
             n += 3
         elif kind == "chain":
-            body += [["const", ty, a], ["const", ty, b], ["bin", op, "p0", "%%%d" % n, ty], ["bin", op, "%%%d" % (n + 2), "%%%d" % (n + 1), ty],
+            op1, op2 = (op[0], op[1]) if len(op) == 2 else (op, op)
+            body += [["const", ty, a], ["const", ty, b], ["bin", op1, "p0", "%%%d" % n, ty], ["bin", op2, "%%%d" % (n + 2), "%%%d" % (n + 1), ty],
                      ["store", "%%%d" % (n + 3), "@g", True]]
             n += 4
         else:
@@ -98,26 +99,27 @@ def fold_batch(p, kind, ty, op, pairs):
         v = st.value
         w = dict(wit, a=a, b=b)
         if kind == "chain":
-            # value must still be a Binop  y op C ; C must be in range and y op C == (y op a) op b for sample y
+            op1, op2 = (op[0], op[1]) if len(op) == 2 else (op, op)
+            # value must still be a Binop  y op C ; C must be in range and y op C == (y op1 a) op2 b for sample y
             if not isinstance(v, ir.Binop):
                 p.count("chain_shape_other")
                 continue
             consts = [x for x in (v.a, v.b) if isinstance(x, ir.Const)]
             for c in consts:
                 if not (lo <= c.value <= hi):
-                    p.violation("chain/%s/const-out-of-range" % op, "(y %s %d) %s %d on %s folds to a Const %d outside [%d, %d]" % (op, a, op, b, ty, c.value, lo, hi), w)
+                    p.violation("chain/%s/const-out-of-range" % op, "(y %s %d) %s %d on %s folds to a Const %d outside [%d, %d]" % (op1, a, op2, b, ty, c.value, lo, hi), w)
             if isinstance(v.a, ir.Binop) or not consts:
                 p.count("chain_unfolded")
                 continue
             c = consts[0]
             for y in irgen.V(ty, 7):
                 try:
-                    want = ref.binop(T, op, ref.binop(T, op, y, a), b)
+                    want = ref.binop(T, op2, ref.binop(T, op1, y, a), b)
                     got = ref.binop(T, v.operation, y, ref.wrap(T, c.value))
                 except Undefined:
                     continue
                 if want != got:
-                    p.violation("chain/%s/wrong-value" % op, "(y %s %d) %s %d on %s folded to y %s %d: y=%d gives %d, expected %d" % (op, a, op, b, ty, v.operation, c.value, y, got, want), w)
+                    p.violation("chain/%s/wrong-value" % op, "(y %s %d) %s %d on %s folded to y %s %d: y=%d gives %d, expected %d" % (op1, a, op2, b, ty, v.operation, c.value, y, got, want), w)
                     break
             else:
                 p.outcome((ty, "chain" + op, c.value))
@@ -165,8 +167,8 @@ def run(ctx):
         for op in ops:
             for ch in chunks(pairs, GROUP):
                 items.append(("bin", ty, op, ch))
-        for op in ("+", "-"):
-            for ch in chunks(pairs, GROUP):
+        for op in ("+", "-", "+-", "-+"):
+            for ch in chunks(pairs if len(op) == 1 or ty == "i8" else pairs[::4], GROUP):
                 items.append(("chain", ty, op, ch))
     wide = ["i16", "u16", "i32", "u32", "i64", "u64"]
     for ty in wide:
@@ -174,7 +176,7 @@ def run(ctx):
         pairs = list(itertools.product(vs, vs))
         for op in ops:
             items.append(("bin", ty, op, pairs))
-        for op in ("+", "-"):
+        for op in ("+", "-", "+-", "-+"):
             items.append(("chain", ty, op, pairs))
     if not ctx.quick:
         for ty in ("i16", "u16"):
